@@ -93,6 +93,74 @@ def _l4_writer(n: int, s0: int, s1: int, s2: int, h0: bool, h1: bool, h2: bool) 
     return S.check_tagging_task(TG.run_tagging_task, specs, None) is None
 
 
+def _l6_read_groups(n: int, a0: int, b0: int, a1: int, b1: int, two0: bool, two1: bool) -> bool:
+    """
+    pre: 1 <= n <= 2
+    pre: 0 <= a0 <= 2 and 0 <= b0 <= 2 and 0 <= a1 <= 2 and 0 <= b1 <= 2
+    post: _
+    """
+    # single-process path: every record that is written carries a read group, and every such read group must be handed to the header rewrite
+    from spec import c20 as W
+    import singlecellmultiomics.bamProcessing.bamFunctions as BF
+    from vlib.sym import pick
+    RGS = ['FC1.1.cellA', 'FC1.2.cellA', 'FC2.1.cellB']
+    w = W.World(None, False)
+    fp = W.FakePysam(w)
+    BT.pysam, BF.pysam, BF.os, BT.open = fp, fp, W.FakeOS(w), W.status_open_factory(w)
+    declared = {}
+
+    def rehead(path, rgs, *a, **k):
+        declared.update(rgs)
+        w.files[path]['rg'] = True
+    BF.add_readgroups_to_header = rehead
+    written = []
+
+    class Frag:
+        def __init__(self, rg):
+            self.rg = rg
+
+        def get_read_group(self, with_attr=False):
+            return (self.rg, {'ID': self.rg}) if with_attr else self.rg
+
+    class Mol:
+        def __init__(self, i, rgs):
+            self.i, self.frags = i, [Frag(r) for r in rgs]
+
+        def __iter__(self):
+            return iter(self.frags)
+
+        def __getitem__(self, k):
+            return self.frags[k]
+
+        def __len__(self):
+            return len(self.frags)
+
+        def set_meta(self, k, v):
+            pass
+
+        def get_a_reference_id(self):
+            return 'r%d' % self.i
+
+        def write_tags(self):
+            pass
+
+        def write_pysam(self, out, **kw):
+            for f in self.frags:
+                written.append(f.rg)
+                out.write(f.rg)
+    specs = [([pick(RGS, a0)] + ([pick(RGS, b0)] if two0 else [])), ([pick(RGS, a1)] + ([pick(RGS, b1)] if two1 else []))][:n]
+
+    def molecule_iterator(alignments, **kw):
+        if kw.get('contig') == '*':
+            return
+        for i, rgs in enumerate(specs):
+            yield Mol(i, rgs)
+    BT.tag_multiome_single_thread('in.bam', 'dir/out.bam', molecule_iterator=molecule_iterator, molecule_iterator_args={'contig': None, 'start': None, 'end': None})
+    if sorted(written) != sorted(r for sp in specs for r in sp):
+        return False
+    return all(r in declared for r in written)
+
+
 def _l5_job(n: int, c0: int, c1: int, c2: int, v0: bool, v1: bool, v2: bool, v3: bool) -> bool:
     """
     pre: 1 <= n <= 3
@@ -116,13 +184,14 @@ LEMMAS = [
          cases={'quick': [dict(id='n%d_p%d' % (n, p), pre=['n == %d' % n, 'pooling == %d' % p]) for n in (1, 2, 3) for p in (0, 1)],
                 'thorough': [dict(id='n%d_p%d' % (n, p), pre=['n == %d' % n, 'pooling == %d' % p]) for n in (1, 2, 3, 4) for p in (0, 1)]}),
     dict(name='L4_writer_step', fn='_l4_writer', engine='E1', timeout=_T, replay='replay.C05:replay'),
+    dict(name='L6_read_groups_declared', fn='_l6_read_groups', engine='E1', timeout=_T, replay='replay.C05:replay'),
     dict(name='L5_job_bookkeeping', fn='_l5_job', engine='E1', timeout=_T, replay='replay.C05:replay'),
 ]
 
 PROPERTY = dict(
     functions=['bamtagmultiome.tag_multiome_multi_processing: `if one_contig_per_process:` block and its else branch (AST cut, E3)',
                'bamBinCounts.blacklisted_binning_contigs / blacklisted_binning', 'utils.binning.bp_chunked',
-               'molecule.iterator.MoleculeIterator.__iter__', 'tagging.run_tagging_task', 'tagging.run_tagging_tasks (job bookkeeping: a job that wrote records keeps its output)'],
+               'molecule.iterator.MoleculeIterator.__iter__', 'bamtagmultiome.tag_multiome_single_thread (read-group collection)', 'tagging.run_tagging_task', 'tagging.run_tagging_tasks (job bookkeeping: a job that wrote records keeps its output)'],
     bounds={'quick': dict(contigs='<=4 contigs with arbitrary positive lengths, optional (*,0) idxstats entry at any position; and 0..13 contigs in every small* large* small* pattern',
                           region_mode='<=2 contigs of length <=4/4, bin<=5, bp_per_job<=7, fragment size unbounded',
                           iterator='<=3 fragments, symbolic validity, 2 keys, cap 0..2 (0 = none), both pooling methods, check_eject_every None/0..3',
